@@ -101,6 +101,40 @@ Fixpoint smap (f : ascii -> ascii) (s : string) : string :=
 Definition is_ascii_str (s : string) : bool :=
   (fix go s := match s with EmptyString => true | String a s' => Nat.ltb (nat_of_ascii a) 128 && go s' end) s.
 
+(* case mapping of a valid UTF-8 string (Go: strings.ToUpper / ToLower = unicode.ToUpper / ToLower
+   applied to every code point, Unicode SIMPLE case mapping).  ASCII bytes follow the ASCII rule;
+   the image of every other UTF-8 sequence is a PARAMETER: the table `tbl` (sequence -> image),
+   measured by the engine by calling unicode.ToUpper / ToLower on each code point of the receiver.
+   A non-ASCII sequence missing from the table: None. *)
+Fixpoint lookup_char (tbl : list (string * string)) (c : string) : option string :=
+  match tbl with
+  | [] => None
+  | (k, v) :: r => if String.eqb k c then Some v else lookup_char r c
+  end.
+Definition map_char (f : ascii -> ascii) (tbl : list (string * string)) (c : string) : option string :=
+  match c with
+  | String a EmptyString =>
+      if Nat.ltb (nat_of_ascii a) 128 then Some (String (f a) EmptyString) else lookup_char tbl c
+  | _ => lookup_char tbl c
+  end.
+Fixpoint concat_opt (l : list (option string)) : option string :=
+  match l with
+  | [] => Some EmptyString
+  | Some x :: r => match concat_opt r with Some y => Some (x ++ y)%string | None => None end
+  | None :: _ => None
+  end.
+Definition case_map (f : ascii -> ascii) (tbl : list (string * string)) (s : string) : option string :=
+  concat_opt (map (map_char f tbl) (utf8_chars s)).
+(* the documented result, stated on the characters: r is a case mapping of s when both split into
+   the same number of characters and each character of r is the image of the one of s *)
+Fixpoint chars_mapped (f : ascii -> ascii) (tbl : list (string * string)) (cs ds : list string) : bool :=
+  match cs, ds with
+  | [], [] => true
+  | c :: cs', d :: ds' =>
+      match map_char f tbl c with Some x => String.eqb x d | None => false end && chars_mapped f tbl cs' ds'
+  | _, _ => false
+  end.
+
 (* ------------------------------------------------------------------ the methods *)
 Inductive smeth := SLength | SIndexOf | SSubstring | SReplace | SSplit | STrim | SUpper | SLower | SStartsWith | SEndsWith.
 
@@ -183,7 +217,14 @@ Definition sspec (m : smeth) (s : string) (args : list elem) : option elem :=
 
 (* ------------------------------------------------------------------ correspondence *)
 Inductive sobs := SOVal (res : elem) (after : string) | SOThrow | SOPanic | SOOther.
-Inductive anycase := CA (c : case) | CS (m : smeth) (s : string) (args : list elem) (o : sobs).
+Inductive anycase :=
+| CA (c : case)
+| CS (m : smeth) (s : string) (args : list elem) (o : sobs)
+(* toUpperCase (up = true) / toLowerCase on any valid UTF-8 receiver; tbl = measured images *)
+| CSU (up : bool) (tbl : list (string * string)) (s : string) (o : sobs)
+(* a call observed together with an ALIAS of the receiver (a copy made before the call): the copy
+   must still hold the receiver's contents from before the call *)
+| CAl (c : case) (recv alias : list elem).
 Definition sagree (r : elem) (s : string) (o : sobs) : bool :=
   match o with SOVal r' s' => elem_eqb r r' && String.eqb s s' | _ => false end.
 (* informational codes (not failures): 9 = the property oracle (spec) says nothing about this call
@@ -202,6 +243,20 @@ Definition spec_silent (c : case) : list nat :=
 Definition check_any (c : anycase) : list nat :=
   match c with
   | CA c' => (check_case c' ++ spec_silent c')%list
+  | CAl c' recv alias => (check_case c' ++ (if list_eqb recv alias then [] else [5%nat]) ++ spec_silent c')%list
+  | CSU up tbl s o =>
+      let f := if up then upper_ascii else lower_ascii in
+      (match case_map f tbl s with
+       | Some r => if sagree (EStr r) s o then [] else [1%nat]
+       | None => [1%nat]
+       end) ++
+      (match o with
+       | SOVal (EStr r) _ =>
+           if chars_mapped f tbl (utf8_chars s) (utf8_chars r) && Nat.eqb (String.length (String.concat "" (utf8_chars r))) (String.length r)
+           then [] else [2%nat]
+       | _ => [2%nat]
+       end) ++
+      (match o with SOVal _ s' => if String.eqb s s' then [] else [3%nat] | SOPanic => [4%nat] | _ => [] end)
   | CS m s args o =>
       (match scall m s args with Some r => if sagree r s o then [] else [1%nat] | None => [8%nat] end) ++
       (match sspec m s args with Some r => if sagree r s o then [] else [2%nat] | None => [9%nat] end) ++
